@@ -28,6 +28,18 @@ pub fn scenarios(thorough: bool) -> Vec<Scenario> {
         st.max_txs_per_block = 3;
         st.seal_actions = vec![None];
         v.push(sc("custom02-stake-and-spends", NetID::Custom02, 0, st, 6));
+        // mainnet: the one faucet that may be applied again (in the same block, in later blocks) next to ordinary transfers
+        let mut mn = AlphaCfg::base();
+        mn.per_denom = 1;
+        mn.splits = false;
+        mn.burns = false;
+        mn.mints = false;
+        mn.overpay = false;
+        mn.pairs = false;
+        mn.adversarial = false;
+        mn.max_txs_per_block = 2;
+        mn.seal_actions = vec![None];
+        v.push(sc("mainnet-faucet-replays", NetID::Mainnet, 0, mn, 7));
     }
     if thorough {
         let mut c3 = cfg.clone();
